@@ -3,6 +3,7 @@ package main
 import (
 	"context"
 	"fmt"
+	"regexp"
 	"strconv"
 	"strings"
 	"time"
@@ -475,6 +476,7 @@ func c13ModelProm(r *h.Result, rng *h.Rng, n int) error {
 				r.Case(fmt.Sprintf("model-prom:raw:%+v:%v:%v", *hints, ms, c), true)
 				r.Count("model-prom:raw:fn=" + hints.Func)
 				tight.add("prom-raw", c.From, c.To, 0, true, 2, res.Query, fmt.Sprintf("hints=%+v", *hints), map[string]any{"hints": *hints, "ctx": c, "sql": t})
+				c13PromCovers(r, "raw", t, c.From, c.To, map[string]any{"hints": *hints, "ctx": c, "sql": t})
 			}
 		} else {
 			r.Count("model-prom:raw-error")
@@ -487,6 +489,7 @@ func c13ModelProm(r *h.Result, rng *h.Rng, n int) error {
 				r.Case(fmt.Sprintf("model-prom:down:%+v:%v:%v", *hints, ms, c), true)
 				r.Count("model-prom:down")
 				tight.add("prom-downsample", c.From, c.To, 0, true, 2, sel, fmt.Sprintf("hints=%+v", *hints), map[string]any{"hints": *hints, "ctx": c, "sql": t})
+				c13PromCovers(r, "downsample", t, c.From, c.To, map[string]any{"hints": *hints, "ctx": c, "sql": t})
 			}
 		} else {
 			r.Count("model-prom:down-error")
@@ -500,6 +503,38 @@ func c13ModelProm(r *h.Result, rng *h.Rng, n int) error {
 		c13Judge(r, "model-prom", ops[i], a, impl[i], cases[i], 1)
 	}
 	return tight.judge(r)
+}
+
+// c13PromCovers: "never miss data inside the window" for the Prometheus select, whose window [hints.Start, hints.End] includes both
+// ends (the engine evaluates AT hints.End): every comparison of the samples scan on samples.timestamp_ns must admit both ends.
+// Judged on the real statement's text, no model.
+var c13PromBound = regexp.MustCompile(`\(samples\.timestamp_ns\) (>=|<=|>|<) \((-?\d+)\)`)
+
+func c13PromCovers(r *h.Result, kind, text string, from, to int64, c any) {
+	ms := c13PromBound.FindAllStringSubmatch(text, -1)
+	if len(ms) < 2 {
+		r.Violate("C13/window-cut/prom-"+kind+"/bounds-not-found", "the samples scan of the Prometheus statement shows no two timestamp bounds", c)
+		return
+	}
+	for _, m := range ms {
+		v, _ := strconv.ParseInt(m[2], 10, 64)
+		cut, at := false, int64(0)
+		switch m[1] {
+		case ">=":
+			cut, at = v > from, from
+		case ">":
+			cut, at = v >= from, from
+		case "<=":
+			cut, at = v < to, to
+		case "<":
+			cut, at = v <= to, to
+		}
+		if cut {
+			r.Violate("C13/window-cut/prom-"+kind, fmt.Sprintf("Prometheus select over [%d, %d] (both ends included): the samples scan asks `samples.timestamp_ns %s %d` — a sample stamped %d, inside the window, is not read", from, to, m[1], v, at),
+				map[string]any{"stream": "model-prom", "case": c, "missed_timestamp_ns": at})
+		}
+	}
+	r.Count("prom-covers:" + kind)
 }
 
 // ---- model-prof: the Pyroscope selector query with the dates rendered from the context
